@@ -158,6 +158,11 @@ func cmdUnits(args []string) {
 		} else {
 			res = verifyUnit(p, u)
 		}
+		if res == nil {
+			fmt.Printf("%-60s FAIL (no such lemma)\n", u.Name)
+			bad++
+			continue
+		}
 		if res.Skipped != "" {
 			fmt.Printf("%-60s ASSUMED (%s)\n", u.Name, res.Skipped)
 			continue
